@@ -635,12 +635,13 @@ SPECS["C15"] = dict(
                  "small vector co-permuted, ordered by the rule); (3) check_convergence reports true iff every one of the first nev residual norms is below tol (symbolic residues and tol) and sets the "
                  "per-root flags accordingly - so Successful implies true residuals below tol; (4) the diagonal-preconditioned correction satisfies corr*(theta - a_ii) = residue, and its division is a "
                  "definedness obligation: theta == a_ii is possible - the known finding K-C15-1 (0/0 -> NaN, concrete replay replay/c15_davidson_nan.cpp), reported as KNOWN-FINDING; (5) the initial search space "
-                 "consists of distinct unit vectors at the rule's top positions of the diagonal."),
+                 "consists of distinct unit vectors at the rule's top positions of the diagonal; (6) one pass of the real public compute(selection, maxit = 1, tol) with a symbolic tol: whenever info() is "
+                 "Successful, compute() returns nev and every returned pair has ||A x - theta x|| below the CALLER's tol."),
     functions=["RitzPairs<S>::compute_eigen_pairs, sort, check_convergence", "SearchSpace<S>::initialize_search_space, update_operator_basis_product, restart", "DavidsonSymEigsSolver<Op>::calculate_correction_vector, "
                "setup_initial_search_space, constructor", "argsort"],
     stubs=["K6 Eigen::SelfAdjointEigenSolver<Matrix<S>>: fresh ascending eigenvalues d and vectors Z with S Z = Z D (Eigen, not Spectra: assumed)"],
     bounds={"n": "3, 4", "search space size": "1..3", "nev": "1, 2"},
-    outside=["the iteration loop of JDSymEigsBase::compute_with_guess as a whole, extend_basis / twice_is_enough_orthogonalisation (QR-based, not encoded)", "unit norm / orthonormality of the returned vectors "
+    outside=["more than one pass of the iteration loop of JDSymEigsBase::compute_with_guess, extend_basis / twice_is_enough_orthogonalisation (QR-based, not encoded)", "unit norm / orthonormality of the returned vectors "
              "(needs Z'Z = I and the orthogonalisation)", "user-supplied non-orthonormal initial spaces", ROUNDING],
     assumptions=["exact real arithmetic", "cache invariant established by the real update_operator_basis_product (checked)"],
     policy=dict(events="violation", allow_cut=False),
